@@ -125,4 +125,37 @@ Section Free.
         rewrite down_aux_length by auto; auto.
     - apply box_free_within; auto.
   Qed.
+
+  (** ... and so is every point at which the model is evaluated, whichever of the two bound lists the user gave (an absent
+      list is a list of absent bounds): from the box part of the contract alone *)
+  Theorem opt_evals_within repaired replb (O : optimiser R) p0 lower upper fx multinom lg w d0 :
+    opt_gen ll_multinom ll_plain repaired replb O p0 lower upper (Some fx) multinom lg = Some w ->
+    project_down p0 (Some fx) = Some d0 ->
+    (lg = true -> Forall pos_opt (dflt_bounds lower (length p0)) /\ Forall pos_opt (dflt_bounds upper (length p0))) ->
+    Forall (fun x => box_ok (w_lo w) (w_hi w) x = true /\ length x = length (w_start w)) (o_trace (w_oracle w)) ->
+    Forall (free_within fx (dflt_bounds lower (length p0)) (dflt_bounds upper (length p0))) (w_evals w).
+  Proof.
+    intros Hw Hd Hlg Hbox.
+    destruct (opt_gen_inv _ _ _ _ _ _ _ _ _ _ _ _ Hw) as (lo & hi & d0' & Hlo & Hhi & Hd' & Hrest).
+    cbv zeta in Hrest. destruct Hrest as (Elo & Ehi & Est & Eor & _ & _ & Eev).
+    rewrite Hd in Hd'. injection Hd' as <-.
+    pose proof (project_down_some_length _ _ _ Hlo) as Ll.
+    pose proof (project_down_some_length _ _ _ Hhi) as Lu.
+    pose proof (project_down_length _ _ _ Hd) as Ld. cbn in Ld.
+    cbn in Hlo, Hhi. rewrite Ll, Nat.eqb_refl in Hlo. rewrite Lu, Nat.eqb_refl in Hhi.
+    injection Hlo as <-. injection Hhi as <-.
+    rewrite Eev, <- Eor. apply Forall_forall. intros e He.
+    apply in_flat_map in He as (x & Hx & He).
+    rewrite Forall_forall in Hbox. destruct (Hbox x Hx) as [Hb Hl].
+    rewrite opt_objective_spec in He. cbn [snd] in He. destruct He as [<-|[]].
+    cbn [project_up]. rewrite Elo, Ehi in Hb.
+    assert (Lx : length x = nfree fx).
+    { rewrite Hl, Est. destruct lg; [rewrite map_length|]; exact Ld. }
+    destruct lg; cbn [tr].
+    - destruct (Hlg eq_refl) as (Pl & Pu).
+      apply box_free_within; auto; [rewrite map_length; auto|].
+      apply (box_log replb); auto; try (apply down_aux_Forall; auto);
+        rewrite down_aux_length by auto; auto.
+    - apply box_free_within; auto.
+  Qed.
 End Free.
